@@ -465,32 +465,40 @@ func (c *Ctx) Unreachable(site ssa.Instruction, label string, when ...FM) bool {
 		c.violate(site, nil, label, fmt.Sprintf("%s: the refusing condition is not tested anywhere in %s", label, shortName(fn)), nil)
 		return false
 	}
-	// loop headers enclosing the site: blocks that dominate the site's block and are reachable from it
 	sb := site.Block()
-	fromSite := reachableBlocks(sb)
-	var headers []*ssa.BasicBlock
-	for _, b := range fn.Blocks {
-		if b != sb && b.Dominates(sb) && fromSite[b] {
-			headers = append(headers, b)
-		}
-	}
 	for _, a := range arms {
-		// within one iteration: a path from the refusing arm that re-enters an enclosing loop header
-		// (which also encloses the arm) starts a new iteration with new values and does not count
+		// Loops: a path from the refusing arm that re-enters the header of a loop enclosing the arm
+		// starts a new iteration. It is discounted when the test that established the refusing
+		// condition dominates the site (then the new iteration re-evaluates it before reaching the
+		// site); otherwise (site after the loop, reachable without the test) it counts.
+		blocked := map[*ssa.BasicBlock]bool{}
 		isHeader := false
-		for _, h := range headers {
+		fromArm := reachableBlocks(a)
+		for _, h := range fn.Blocks {
+			if !(h.Dominates(a) && fromArm[h]) {
+				continue // not the header of a loop enclosing the arm
+			}
+			// same-iteration region: a successor of the header that stays in the loop and dominates the site
+			// (for the arm that is the header itself: the region of the site)
+			sameIter := false
+			for _, e := range h.Succs {
+				if !reachableBlocks(e)[h] {
+					continue
+				}
+				if (e == sb || e.Dominates(sb)) && (a == h || e == a || e.Dominates(a)) {
+					sameIter = true
+				}
+			}
+			if !sameIter {
+				continue
+			}
 			if h == a {
 				isHeader = true
 			}
+			blocked[h] = true
 		}
 		if isHeader {
 			continue // the refusing edge leads straight to the next iteration
-		}
-		blocked := map[*ssa.BasicBlock]bool{}
-		for _, h := range headers {
-			if h != a && h.Dominates(a) {
-				blocked[h] = true
-			}
 		}
 		seen := map[*ssa.BasicBlock]bool{}
 		var reach func(x *ssa.BasicBlock) bool
